@@ -120,6 +120,7 @@ def mon_C02(run):
     bad = []
     panics = scripted_panics(run)
     probe_results = []
+    probe2, probe2_max = [], 0
     for row in run.rows:
         if row is None:
             continue
@@ -138,6 +139,9 @@ def mon_C02(run):
                 bad.append((k, f"get #{args[0]} panicked without an injected panic"))
             if name == "result" and row["section"] == "probe":
                 probe_results.append(args[1].split(":")[0])
+            if name == "result" and row["section"] == "probe2":
+                probe2.append(args[1].split(":")[0])
+                probe2_max = int(d["max"])
         if d.get("fault") != "0":
             bad.append((k, "fault"))
         if bad:
@@ -147,6 +151,21 @@ def mon_C02(run):
         if probe_results != want:
             last = max(r["k"] for r in run.rows if r)
             bad.append((last, f"capacity probe after everything was returned: zero-wait gets gave {probe_results}, expected {want}"))
+    if not bad and probe2:
+        n = min(probe2_max, 8)
+        if probe2[:n] != ["ok"] * n:
+            last = max(r["k"] for r in run.rows if r)
+            bad.append((last, f"capacity lost: after a shrink to {probe2_max} with every object idle only {probe2[:n].count('ok')} objects can be had (zero-wait gets gave {probe2})"))
+    if bad:
+        return bad[:1]
+    if run.has_resize and not run.has_close and probe_results:
+        # with resizes in the history: at least the final max_size objects can be had (more than
+        # that is C07's business: a shrink that could not collect everything)
+        last = max(r["k"] for r in run.rows if r)
+        final_max = int(next(r for r in reversed(run.rows) if r)["obs"]["max"])
+        n = min(final_max, 8)
+        if probe_results[:n] != ["ok"] * n:
+            bad.append((last, f"capacity lost: after everything was returned only {probe_results[:n].count('ok')} of max_size {final_max} objects can be had (zero-wait gets gave {probe_results})"))
     return bad[:1]
 
 
@@ -312,6 +331,10 @@ def object_history_violations(run):
                 oid = args[1]
                 if oid in gone:
                     bad.append((k, f"object {oid} destroyed twice"))
+                if oid not in detached:
+                    # whatever the pool discards (failed / abandoned recycle or creation, surplus
+                    # after a shrink, resize, close) goes through Manager::detach first
+                    bad.append((k, f"object {oid} was destroyed by the pool without Manager::detach having been called for it"))
                 gone[oid] = k
             elif name == "taken":
                 gone[args[1]] = k
@@ -601,13 +624,26 @@ def mon_C07(run):
         return bad[:1]
     # (4) capacity at the end
     probe = [ev_args(e)[1][1].split(":")[0] for r in rows if r and r["section"] == "probe" for e in r["ev"] if e.startswith("result(")]
-    if probe and locks:
-        last_n = tl[max(locks)[1]]["n"]
+    # (the generator's epilogue shrinks once more after the probe: only resizes before it count here)
+    probe_rows = [r["k"] for r in rows if r and r["section"] == "probe"]
+    locks1 = [l for l in locks if not probe_rows or l[0] < probe_rows[0]]
+    if probe and locks1:
+        last_n = tl[max(locks1)[1]]["n"]
         if all(e["done"] is not None for e in tl.values()):
             got = sum(1 for x in probe if x == "ok")
             if got != min(last_n, 8) or (last_n < 8 and probe[-1] != "timeout_wait"):
-                last = max(r["k"] for r in rows if r)
+                last = probe_rows[-1]
                 bad.append((last, f"after all objects returned the pool handed out {got} objects at once; the last resize target was {last_n}", "capacity"))
+    if bad:
+        return bad[:1]
+    # (5) the epilogue: a shrink by one with every object idle, then the same probe
+    probe2_rows = [r for r in rows if r and r["section"] == "probe2"]
+    probe2 = [ev_args(e)[1][1].split(":")[0] for r in probe2_rows for e in r["ev"] if e.startswith("result(")]
+    if probe2 and locks:
+        last_n = tl[max(locks)[1]]["n"]
+        got = sum(1 for x in probe2 if x == "ok")
+        if got != min(last_n, 8) or (last_n < 8 and probe2[-1] != "timeout_wait"):
+            bad.append((probe2_rows[-1]["k"], f"after a shrink to {last_n} with every object idle the pool handed out {got} objects at once", "capacity"))
     return bad[:1]
 
 
@@ -755,6 +791,8 @@ def mon_C05(run):
         u_blocked_ok(run, row, bad)
         for e in row["ev"]:
             name, args = ev_args(e)
+            if name == "result" and not run.has_close and args[1].startswith("closed"):
+                bad.append((k, f"{run.ops[int(args[0])]['kind'][1:]} #{args[0]} reported Closed on a pool that is never closed"))
             if name == "result" and prev is not None:
                 op = run.ops[int(args[0])]
                 if op["kind"] == "utryadd" and args[1].startswith("timeout") and prev["obs"]["spermits"] != "0":
